@@ -262,6 +262,21 @@ EXTENDING = [
 ]
 
 
+# every binary operator in every operand position of the constructs that are not operators (C06: the packed tables hold one row per parser STATE, so
+# the same operator is looked up in a different row after `for x in`, after `return`, inside a list ...): the operand written bare and
+# in parentheses gives the same tree
+ARITH = ['+', '-', '*', '/', '**']
+OPS_ALL = ARITH + ['=', '!=', '<', '<=', '>', '>=', 'and', 'or']
+HOLES = [('for x in %s return x', OPS_ALL), ('for x in a return %s', OPS_ALL), ('for x in %s .. c return x', ARITH), ('for x in c .. %s return x', ARITH), ('for x in a, y in %s return y', OPS_ALL),
+         ('some x in %s satisfies x', OPS_ALL), ('some x in a satisfies %s', OPS_ALL), ('every x in %s satisfies x', OPS_ALL), ('every x in a satisfies %s', OPS_ALL),
+         ('if %s then c else d', OPS_ALL), ('if c then %s else d', OPS_ALL), ('if c then d else %s', OPS_ALL), ('function(x) %s', OPS_ALL),
+         ('[%s, c]', OPS_ALL), ('[c, %s]', OPS_ALL), ('{k: %s}', OPS_ALL), ('{k: c, m: %s}', OPS_ALL), ('c[%s]', OPS_ALL), ('f(%s)', OPS_ALL), ('f(c, %s)', OPS_ALL), ('f(p: %s)', OPS_ALL),
+         ('d between %s and c', ARITH), ('d between c and %s', ARITH), ('UT:%s', ARITH), ('UT:c, %s', ARITH), ('(%s)', OPS_ALL)]
+for (_t, _ops) in HOLES:
+    for _op in _ops:
+        EXTENDING.append((_t % ('(a %s b)' % _op), _t % ('a %s b' % _op)))
+
+
 def main():
     depth = 3
     if '--depth' in sys.argv:
